@@ -24,6 +24,8 @@ var lexFragments = []string{
 	`"`, `""`, `"a"`, `"a\"b"`, `'`, `''`, `'a'`, `'q"q'`, "`", "``", "`a`", "`a\\`b`", "`a\nb`", "`\\\\`",
 	`"\x41"`, `"\x4"`, `"\x4G"`, `"\xZZ"`, `"\x22"`, `"\x5c"`, `"\x0a"`, `"\xe9"`, `"A"`, `"é"`, `"\u12"`, `"\u12G4"`, `"😀"`, `"\"`,
 	`"\u{41}"`, `"\u{1F600}"`, `"\u{}"`, `"\u{110000}"`, `"\u{1234567}"`, `"\u{12`, `"\u{zz}"`, `"\u{22}"`, `"\u{D800}"`, `"\n\t\r\\\'\0\q"`, "\"a\\\nb\"", `"\`, `"\x`, `"\u`, `"\u{`,
+	`"\u000a"`, `"\u000d"`, `"\u2028"`, `"\u2029"`, `"\u0022"`, `"\u005c"`, `"\u0000"`, `"\u00001"`, `"\ud800"`, `"\udfff"`, `"\ud83d\ude00"`, `"\u0041"`, `"\u00e9"`, `"\uFFFF"`, `'\u0027'`, `'\u000A'`,
+	`"\u{a}"`, `"\u{2028}"`, `"\u{5c}"`, `"\u{0}"`, `"\u{DFFF}"`, `"\u{10FFFF}"`, `"\0"`, `"\01"`, `"\x00"`, `"\x1F"`,
 	"\x00", "\x01", "\x7f", "\x80", "\xff", "é", "✓", "😀", "@", "#", "~", "^", "?",
 }
 
